@@ -34,6 +34,9 @@ CLAIMED = {
 "C12": dict(ref="§3.5", technique="deterministic simulation with fault injection: the token consumer (parser) dies by panic at an arbitrary token while the producer (scanner) is mid-stream; quiescence detection after main ends",
   text="Malformed inputs of ten classes are parsed as a two-task simulation; the parser's own panic is the injected fault. After the main task has ended the scheduler keeps running, so a scanner goroutine left blocked on the full token queue is a deadlock the simulator sees; runtime errors, non-diagnostic panics, wrong or impossible diagnostic positions (checked against the harness's own tokenizer and viable-prefix recogniser) and hangs are violations. A worker killed by a fatal stack overflow is attributed to its announced input.",
   note="Trusts the harness tokenizer/recogniser (written from the grammar file) for the position oracle, applied only to token-level inputs; other inputs get the weaker check that the named token text really begins at the reported position."),
+"C19": dict(ref="§3.6", technique="deterministic simulation: per-task scripts on disjoint instances, serial reference vs seeded concurrent schedule with shared-variable access preemption, happens-before race oracle",
+  text="Generated scripts over disjoint, task-private instances are executed serially (reference) and then concurrently under a seeded schedule in which accesses to variables already touched by two tasks become preemption points and read-modify-write statements on them are split; hidden shared state shows as a data race (vector clocks over every tracked struct field and package variable) or as a result log that differs from the serial reference; class accessors must return one class per type parameter. Every run starts from first-use state of the class registries.",
+  note="Trusts the instrumenter's identification of field/package-variable accesses (typed AST), the happens-before model, and the per-task seeded entropy stream that stands in for crypto/rand."),
 }
 ORDER = ["C04","C05","C06","C11","C12","C19"]
 checks = []
